@@ -166,15 +166,25 @@ def app_from(ns, r, marks=None):
             def view(request):
                 if marks is not None:
                     marks["invoked"] = marks.get("invoked", 0) + 1
-                return response_from(ns, r["response"], marks)
+                resp = response_from(ns, r["response"], marks)
+                if r.get("reads_body"):
+                    resp.headers["x-body-seen"] = str(len(request.body))  # the view reads the request body
+                return resp
         else:
             async def view(request):
                 if marks is not None:
                     marks["invoked"] = marks.get("invoked", 0) + 1
-                return response_from(ns, r["response"], marks)
+                resp = response_from(ns, r["response"], marks)
+                if r.get("reads_body"):
+                    resp.headers["x-body-seen"] = str(len(await request.body))
+                return resp
         return view
     if kind == "raw":
         status, headers, chunks, shape = r["status"], [tuple(h) for h in r["headers"]], list(r["chunks"]), r.get("shape", "list")
+        if status in (204, 304):
+            chunks = []  # no payload with these statuses
+        if r.get("declare_length") and r.get("raise_at") is None and not r.get("raise"):
+            headers = headers + [("Content-Length", str(sum(len(c) for c in chunks)))]  # an explicit (accurate) length, also on 204 / 304
         if name == "wsgi":
             def app(environ, start_response):
                 if marks is not None:
@@ -278,7 +288,7 @@ HEADER_SETS = [None, {}, {"X-Custom": "1"}, {"x-lower": "v", "X-UPPER": "V"}, {"
                {"Cache-Control": "no-store", "X-A": "a, b"}, {"content-length": "5"}]
 COOKIES = [[], [{"name": "sid", "value": "abc"}], [{"name": "a", "value": "1"}, {"name": "b", "value": "two words", "kw": {"max_age": 60, "httponly": True}}],
            [{"name": "a", "value": "1"}, {"name": "a", "value": "2", "kw": {"path": "/x", "samesite": "strict"}}, {"name": "c", "value": "é;=", "kw": {"secure": True, "domain": "example.com"}}],
-           [{"name": "token", "value": "abc\n"}], [{"name": "t\n", "value": "\r\nSet-Cookie: x=1"}, {"name": "q", "value": "\"x; secure; y\""}], [{"name": "z", "value": "tab\there\x00"}]]
+           [{"name": "token", "value": "abc\n"}], [{"name": "t\n", "value": "\r\nSet-Cookie: x=1"}, {"name": "q", "value": "\"x; secure; y\""}], [{"name": "z", "value": "tab\there\x00"}], [{"name": "sp", "value": "two  spaces   three"}, {"name": "lead", "value": "  x  "}]]
 JSONS = [None, 1, "s", [], {}, {"a": [1, 2, {"b": None}]}, {"k": "é中"}, [1.5, True], " "]
 EVENTS = [{"data": "x"}, {"data": "a\nb", "event": "e"}, {"id": "1", "retry": 5}, {"data": "", "id": "2"}, {"data": "é", "event": "up"}]
 
@@ -359,7 +369,7 @@ def gen_raw(rng):
                        [("X-A", "1"), ("X-A", "2"), ("x-b", "3")], [("X-Hop", "1"), ("X-Hop", "1")], [("Set-Cookie", "n=caf\xe9; Path=/"), ("Vary", "Accept")],
                        [("Set-Cookie", "a=\xfc"), ("Set-Cookie", "b=2"), ("vary", "Cookie")], [("Vary", "Accept"), ("Vary", "Accept"), ("Vary", "Origin")], [("Content-Type", "text/plain"), ("Set-Cookie", "a=1; Path=/"), ("Set-Cookie", "b=2; HttpOnly")],
                        [("X-Tag", ""), ("X-Tag", "b")], [("X-Tag", "a"), ("X-Tag", ""), ("X-Empty", "")]])
-    return {"app": "raw", "status": rng.choice([200, 201, 404, 418, 599]), "headers": hdrs,
+    return {"app": "raw", "status": rng.choice([200, 201, 404, 418, 599, 204, 304, 205]), "headers": hdrs, "declare_length": rng.random() < 0.3,
             "chunks": [rng.choice([b"hello", b"world", b"", b"\x00\xff"]) for _ in range(n)],
             "shape": rng.choice(["list", "tuple", "generator", "closing", "plain-iterator"]), "reuse_buffer": rng.random() < 0.2, "one_event": rng.random() < 0.5, "minimal_last": rng.random() < 0.3,
             "restart": rng.random() < 0.15, "headers_as_iterator": rng.random() < 0.3}
